@@ -120,6 +120,7 @@ type call struct {
 	zkc    *memConn // for zk dial
 	stk uint64 // hash of the submitting goroutine's call stack: goroutine-stable tie-break
 	it  *iterRec // state-handler invocation of src that was open when the call was issued
+	ev  *SQLEvent // event of a statement whose reply is deferred (blocked SET read_only)
 	// filled by controller
 	key  string // stable identity incl. occurrence number
 	done bool
